@@ -19,6 +19,8 @@
 (D) free-running threads under a 1 us switch interval (supporting only).
 (E) dynamic side of `C18Gen.no_shared_writes`: every Context written during (A) was created by the writing
     thread; every OrderingIterable / GroupAggregator written was created by the writing thread.
+(F) line-granularity schedules: every LINE event of code in the yaql package is a scheduling point
+    (sys.monitoring); seeded bursty schedules, same oracle as (A) - the deterministic, replayable form of (D).
 """
 import itertools
 import json
@@ -1437,7 +1439,7 @@ def run(env, res):
     tier = env['tier']
     rng = common.make_rng(env['seed'], 'C18')
     t_start = time.time()
-    budget = 75 if tier == 'quick' else 520
+    budget = 75 if tier == 'quick' else 480
     deadline = t_start + budget
 
     def on_alarm(signum, frame):
@@ -1451,7 +1453,8 @@ def run(env, res):
                 'interleavings for short traces, <=3-preemption systematic ones for medium, random for long; (B) yaql.eval '
                 'with cold/warm module caches; (C) programs over the real lazy objects / FrozenDict hash / yaql.eval / '
                 'dispatch vs the Lean machine under the same trace; distinct = distinct (statements, documents, styles, '
-                'observed trace); non-trivial = at least two different (statement, document) pairs and >= 2 thread switches')
+                'observed trace); (F) the same at line granularity; non-trivial = at least two different (statement, document) '
+                'pairs and >= 2 thread switches')
     hist = {}
     res.extra['histogram'] = hist
     stats_a = {}
@@ -1466,7 +1469,7 @@ def run(env, res):
         # ------------------------------------------------------------ (A)
         import multiprocessing
         nsh = 3
-        a_deadline = t_start + (34 if tier == 'quick' else 330)
+        a_deadline = t_start + (34 if tier == 'quick' else 260)
         ctx = multiprocessing.get_context('fork')
         pool = ctx.Pool(nsh + 1)
         try:
@@ -1504,9 +1507,9 @@ def run(env, res):
         res.traces += sum(stats_a.get(k, 0) for k in ('schedules_exhaustive', 'schedules_preempt', 'schedules_random'))
         hist['A_statements'] = stats_a
         if not hard(res):
-            part_b(env, res, rng, hist, time.time() + (8 if tier == 'quick' else 60))
+            part_b(env, res, rng, hist, time.time() + (8 if tier == 'quick' else 45))
         if not hard(res):
-            part_c(env, res, rng, hist, time.time() + (15 if tier == 'quick' else 110))
+            part_c(env, res, rng, hist, time.time() + (15 if tier == 'quick' else 90))
         if not hard(res):
             part_d(env, res, rng, hist)
         # (E) the dynamic side of the generated table is part of (A): counted here
@@ -1721,7 +1724,7 @@ def part_d(env, res, rng, hist):
     old = sys.getswitchinterval()
     sys.setswitchinterval(1e-6)
     bad = []
-    rounds, nthreads, loops = (6, 4, 12) if tier == 'quick' else (60, 6, 40)
+    rounds, nthreads, loops = (6, 4, 12) if tier == 'quick' else (30, 6, 40)
     n = 0
     try:
         for r in range(rounds):
@@ -1845,7 +1848,7 @@ LEVEL_TEXT = ('Lean 4 theorems over a generic interleaving semantics (shared com
               'witnesses for partial publication (pre-fix FrozenDict hash), parked per-call state, shared lazy objects. '
               'C18Gen.no_shared_writes: every write site of the live yaql sources (AST walk, regenerated per run) is in an '
               'allowed class. The real code runs under a deterministic thread scheduler at dispatch / iterator-step / '
-              'key-hash granularity (exhaustive, <=3 preemptions, random) against the sequential baseline, the shared '
+              'key-hash granularity (exhaustive, <=3 preemptions, random) and at line granularity (seeded) against the sequential baseline, the shared '
               'context snapshot, the Lean machine under the same trace, and free-running under a 1 us switch interval.')
 LEVEL_NOTE = ('partial: (1) eval_writes_private is over an abstract evaluator with the frame hypothesis explicit; its '
               'instantiation with Model/Eval.lean waits for the merge of C04; (2) the atomic step is one dispatch / iterator '
